@@ -136,12 +136,17 @@ struct Model {
 			}
 			unsigned idx = st.value("idx", 0u);
 			bool list = ((*o)["fl"].get<int>() & F_LIST) != 0;
+			json newv = st["v"];
+			std::string self_repr;
+			bool self = st.value("self", false) && std::string(ty) == "str";
+			if (self) // the value handed in is the option's own current value at that index (NULL beyond the end)
+				self_repr = idx < (*o)["v"].size() ? (*o)["v"][idx].get<std::string>() : std::string("(null)");
 			if (!list) {
 				if (idx != 0) {
 					*why = "index beyond a scalar";
 					return FAIL;
 				}
-				(*o)["v"] = json::array({repr_typed(ty, st["v"])});
+				(*o)["v"] = json::array({self ? self_repr : repr_typed(ty, newv)});
 				(*o)["M"] = true;
 				(*o)["R"] = false;
 				return OK;
@@ -151,7 +156,7 @@ struct Model {
 				return DONTCARE;
 			}
 			if (idx < (*o)["v"].size()) {
-				(*o)["v"][idx] = repr_typed(ty, st["v"]);
+				(*o)["v"][idx] = self ? self_repr : repr_typed(ty, st["v"]);
 				(*o)["M"] = true;
 				(*o)["R"] = false;
 				return OK;
